@@ -43,6 +43,11 @@ def run(rep):
                        "values with references are compared after path tokens are normalised on both sides (C03 judges the paths)"]
     _logic.run(rep, PROP, "binds", _canaries)
     part_parameters(rep)
+    # a logic attribute given to one question of a live Survey object (builder API) belongs to that question's bind only,
+    # in every later render (SurveyObject.tla: Mark)
+    from harness.props import c02
+
+    c02.part_histories(rep, PROP)
 
 
 PAR_CFG = "SPECIFICATION TSpec\nCONSTANT MaxItems = 0\nCONSTRAINT Accepted\nCHECK_DEADLOCK FALSE\n"
@@ -97,6 +102,10 @@ def part_parameters(rep):
 
 def replay(rep, case):
     c = case["case"]
+    if "history" in c:
+        from harness.props import c02
+
+        return c02.replay_history(rep, PROP, c)
     if c.get("parameters"):
         from harness import corpus, paramgen, tlc
 
